@@ -16,7 +16,7 @@ RULE = ("executable programs over the harness native gate set (1-,2-,3-qubit, sy
         "a gate that has a unitary; distinct = S-expression + overrides")
 ASSUMPTIONS = ["harness native gate set and its matrices (vf/gateset_sig.py)", "reference executor vf/refexec.py",
                "programs rejected by the emulator with JaqalError are judged by C12/C13/C14, not here"]
-TIERS = {"quick": {"shards": 8, "budget_s": 90}, "thorough": {"shards": 16, "budget_s": 420}}
+TIERS = {"quick": {"shards": 8, "budget_s": 180}, "thorough": {"shards": 16, "budget_s": 420}}
 REQUIRE = {"overrides-applied-after-macro-expansion:PA": 60, "overrides-applied-after-macro-expansion:ML": 100, "overrides-applied-after-macro-expansion:PML": 100, "run-through-text-entry-point:string": 200, "run-through-text-entry-point:file": 200, "calls-of-stretched-variants": 500, "sections-with-a-repeated-prepare": 300, "busy-gates-with-unitary-inserted": 300, "keyword-calls-in-another-order": 500, "gate-set-variant:B": 100, "gate-set-variant:A": 100, "states-compared": 300, "gate:2q-asym": 50, "gate:3q": 20, "via-alias": 100, "via-macro": 50, "override-used": 30,
            "loop-in-section": 30, "probe:basis": 50, "probe:moved-alias": 100}
 ATOL = 1e-9
